@@ -1932,6 +1932,15 @@ func classifyResult(w *World, h *ssa.Function, at ssa.Instruction, v ssa.Value, 
 				}
 			}
 		}
+		// isKind(v) == true for an in-module predicate that type-tests its argument (`_, ok := err.(T); return
+		// ok`, or errors.As) implies v != nil
+		if wantNil && ea.Kind == "true" {
+			if pc := valueCall(ea.V); pc != nil && len(pc.Common().Args) == 1 && sameValue(pc.Common().Args[0], v) {
+				if ph := staticCallee(pc); ph != nil && ph.Blocks != nil && summarisable(ph) && typeTestsItsArgument(ph) {
+					return nil
+				}
+			}
+		}
 		// a successful type assertion x.(T) implies x != nil
 		if wantNil && ea.Kind == "true" {
 			if ex, ok := ea.V.(*ssa.Extract); ok && ex.Index == 1 {
@@ -2297,6 +2306,44 @@ func summarisable(h *ssa.Function) bool {
 	}
 	if w := worldFor(h); w != nil && h.Pos().IsValid() && strings.HasSuffix(w.Fset.Position(h.Pos()).Filename, ".pb.go") {
 		return false
+	}
+	return true
+}
+
+// typeTestsItsArgument: a one-parameter boolean function every true answer of which comes from a type
+// assertion (or errors.As / errors.Is) on that parameter.
+func typeTestsItsArgument(h *ssa.Function) bool {
+	if len(h.Params) != 1 || h.Signature.Results().Len() != 1 {
+		return false
+	}
+	if b, ok := h.Signature.Results().At(0).Type().Underlying().(*types.Basic); !ok || b.Kind() != types.Bool {
+		return false
+	}
+	tested := false
+	for _, blk := range h.Blocks {
+		for _, in := range blk.Instrs {
+			switch x := in.(type) {
+			case *ssa.TypeAssert:
+				if stripConv(x.X) == ssa.Value(h.Params[0]) {
+					tested = true
+				}
+			case ssa.CallInstruction:
+				if d, ok := describeCallee(x); ok && d.Pkg == "errors" && (d.Name == "As" || d.Name == "Is") && len(x.Common().Args) == 2 && stripConv(x.Common().Args[0]) == ssa.Value(h.Params[0]) {
+					tested = true
+				}
+			}
+		}
+	}
+	if !tested {
+		return false
+	}
+	// no `return true` that does not depend on the test
+	for _, blk := range h.Blocks {
+		if ret, ok := blk.Instrs[len(blk.Instrs)-1].(*ssa.Return); ok {
+			if bv, isC := boolConst(ret.Results[0]); isC && bv && len(blk.Preds) == 0 {
+				return false
+			}
+		}
 	}
 	return true
 }
